@@ -16,6 +16,7 @@ import time
 import numpy as np
 import shim  # noqa: F401
 import scipy.linalg as sla
+from common import Driver, q, qlist  # noqa: F401
 
 from quara.objects import state_typical as ST
 from quara.objects import povm_typical as PT
@@ -902,7 +903,7 @@ def named_states(system):
     return _NAMED_STATES[system]
 
 
-def check_gate(system, name, ids, lind_obj=True):
+def check_gate(system, name, ids, lind_obj=True, skip_lind=False):
     """one gate name (+ ids) and the effective-Lindbladian entry of the same name -> (gate fails, lindbladian fails)"""
     g, l = Rec(), Rec()
     mode, n, dims = SYSTEMS[system]
@@ -916,7 +917,8 @@ def check_gate(system, name, ids, lind_obj=True):
     except KeyError:
         u_ref = None
         g.fail("no-textbook-reference", "-", f"gate name {name!r} has no textbook meaning on {system}")
-    g.true("is-valid-name", "-", name in GT.get_gate_names(), "get_gate_names does not list the name") if not heavy else None
+    if system != "2qutrit":     # (the 2-qutrit names are taken from that list; rebuilding 39k names per entry is the cost)
+        g.true("is-valid-name", "-", name in GT.get_gate_names(), "get_gate_names does not list the name")
 
     # ---- gate forms: outermost dispatcher always; every inner dispatcher too on the small systems
     def outer(form):
@@ -1002,7 +1004,7 @@ def check_gate(system, name, ids, lind_obj=True):
         return QT.generate_effective_lindbladian_object(name, form, dims=list(dims), ids=idl, c_sys=c_sys)
 
     lg = {}
-    for form in QT.get_effective_lindbladian_object_names():
+    for form in ([] if skip_lind else QT.get_effective_lindbladian_object_names()):
         if form not in LIND_FORMS:
             l.fail("no-textbook-reference", form, "object_name unknown to the harness")
             continue
@@ -1092,25 +1094,6 @@ WRONG_SYSTEM = [
 WRONG_IDS = [("cx", "2qubit", None), ("cx", "2qubit", []), ("cx", "2qubit", [0]), ("cx", "2qubit", [0, 0]), ("cx", "2qubit", [0, 1, 2]),
              ("zx90", "2qubit", [1]), ("zx90", "2qubit", [1, 1]), ("toffoli", "3qubit", [0, 1]), ("toffoli", "3qubit", None),
              ("fredkin", "3qubit", [0, 1, 2, 3]), ("fredkin", "3qubit", [0])]
-
-
-def _natural_system(cat, name):
-    for s in SYSTEMS:
-        try:
-            if cat == "state":
-                ref_state(name, s)
-            elif cat == "povm":
-                ref_povm(name, s)
-            elif cat == "gate":
-                ref_unitary(name, s, list(range(SYSTEMS[s][1])))
-            elif cat == "mprocess":
-                return ref_mprocess(name)[0]
-            else:
-                return "1qubit"
-            return s
-        except Exception:  # noqa
-            continue
-    return "1qubit"
 
 
 def dispatchers(cat, name, system, ids="default"):
@@ -1453,7 +1436,8 @@ def check_named_action(item):
     if res is not None:
         cls = ids_class(system, ids)
         ok = r.same("named-action" + cls, form, mat_of(B, res.vec), proj(ref_state(sout, system)), TOL, f"{gname}{ids or ''} on {sin}: density matrix vs textbook {sout}")
-        ok and r.same("named-action-vs-catalogue-state" + cls, form, res.vec, s_out.vec, TOL, f"{gname}{ids or ''} on {sin} vs catalogue state {sout}")
+        if ok:
+            r.same("named-action-vs-catalogue-state" + cls, form, res.vec, s_out.vec, TOL, f"{gname}{ids or ''} on {sin} vs catalogue state {sout}")
     return r.fails
 
 
@@ -1628,7 +1612,9 @@ def run_task(t):
         if kind == "povm":
             return [(kind, system, name, ids, flag, check_povm(system, name))]
         if kind == "gate":
-            gf, lf = check_gate(system, name, ids, lind_obj=flag)
+            gf, lf = check_gate(system, name, ids, lind_obj=(flag is True), skip_lind=(flag == "nolind"))
+            if flag == "nolind":    # (thorough-tier cost) gate entry only; the Lindbladian entry of this name is not in the sample
+                return [("gate", system, name, ids, False, gf)]
             return [("gate", system, name, ids, flag, gf), ("lindbladian", system, name, ids, flag, lf)]
         if kind == "mprocess":
             s, f = check_mprocess(name)
@@ -1727,7 +1713,14 @@ def catalogue_consistency(ctx):
 
 
 # ----------------------------------------------------------------------------- oracle
+PARTIAL = [
+    {"theorem": "psdCert_sound / psdCert_iff", "missing": "soundness is proved for the polymorphic residual at complex numbers; the executed decider runs the same definitions at complex rationals (the per-entry certification is executed, not kernel-checked)"},
+    {"theorem": "gate_of_unitary_tp / gate_of_unitary_choi_psd / state_of_pure_vector_physical / povm_of_onb_physical / kraus_tp / kraus_choi_psd / unitary_of_hamiltonian", "missing": "generic constructions on Mathlib matrices (all dimensions); that each catalogue entry IS such a construction with the textbook matrix is checked per entry by the oracle on the implementation, not proved"},
+]
+
+
 def oracle(ctx, volume=1):
+    ctx.partial = PARTIAL
     t0 = time.time()
     _blas_single_thread()
     for s in SYSTEMS:
@@ -1746,9 +1739,16 @@ def oracle(ctx, volume=1):
         n_obj = min(len(chosen), 24 * volume)
     else:
         chosen = single + double
-        n_obj = min(len(chosen), 1200)
+        n_obj = min(len(chosen), 600)
     with_obj = set(ctx.rng.sample(chosen, n_obj))
-    heavy = [("gate", "2qutrit", n, [0, 1], n in with_obj) for n in chosen]
+    # thorough: EVERY 2-qutrit gate name is generated and checked; the effective-Lindbladian entry of the same name
+    # (3 more dispatcher calls, each re-deriving the 39k-name list inside quara) is checked for all 198 single-base
+    # names, the object sample and every second two-base name (deterministic), to keep the tier under 30 minutes
+    single_set = set(single)
+    lind_ok = set(n for i, n in enumerate(double) if i % 2 == 0) | single_set | with_obj
+    heavy = [("gate", "2qutrit", n, [0, 1], (True if n in with_obj else False) if (ctx.quick or n in lind_ok) else "nolind")
+             for n in chosen]
+    n_lind = sum(1 for t in heavy if t[4] != "nolind")
     t1 = time.time()
     results = run_tasks(heavy, 4 if ctx.quick else 24, tasks, 16)
     t2 = time.time()
@@ -1770,8 +1770,9 @@ def oracle(ctx, volume=1):
     ctx.notes.append(
         f"C17 oracle: {len(tasks)} small-catalogue entries (all names x all forms x all id permutations), "
         f"2-qutrit gate+Lindbladian names {len(chosen)}/{n_all} ({'seeded sample incl. all 198 single-base names' if len(chosen) < n_all else 'exhaustive'}), "
-        f"EffectiveLindbladian objects (constructor + is_physical cost ~2 s each) built for {n_obj} of them (seeded sample; "
-        f"the matrix-level Lindbladian checks run for every chosen name), {n_probe} out-of-catalogue probes; "
+        f"effective-Lindbladian entries (hamiltonian_vec/mat, effective_lindbladian_mat: expm(L) vs gate) checked for {n_lind} of these names, "
+        f"EffectiveLindbladian objects (constructor + is_physical cost ~2 s each) built for {n_obj} of them (seeded sample), "
+        f"{n_probe} out-of-catalogue probes; "
         f"workers={n_workers()} setup={t1 - t0:.0f}s pool={t2 - t1:.0f}s serial={t3 - t2:.0f}s")
     ctx.rule = ("one case per (catalogue, system, name, ids, object_name form); the catalogues are enumerated from the get_*_names* functions; "
                 "non-trivial = every name except 'identity'")
@@ -1827,9 +1828,107 @@ def cert_items(ctx):
         yield ("povmsum", f"mprocess/{system}/{n}/kraus", [sum(np.asarray(k).conj().T @ np.asarray(k) for k in g) for g in ks])
 
 
+# ----------------------------------------------------------------------------- correspondence (certificates)
+CERT_EPS = 1e-9
+
+
+def _pc(A):
+    A = np.asarray(A, dtype=np.complex128).flatten()
+    return qlist(x for z in A for x in (z.real, z.imag))
+
+
+def _pr(A):
+    return qlist(np.asarray(A, dtype=np.float64).flatten())
+
+
+def _herm(M):
+    M = np.asarray(M, dtype=np.complex128)
+    return (M + M.conj().T) / 2
+
+
 def correspondence(ctx):
-    """stub: filled in by the property owner (sends cert_items(ctx) to the Lean certificate checkers)"""
-    return None
+    """Sends implementation outputs (cert_items) to the verified certificate checkers of QModel.C17 and compares
+    the checker's verdict with the implementation's own (is_physical == True for every catalogue entry).
+    Every kind also gets negative controls (a perturbed matrix that must be rejected), so a checker that
+    accepts everything would disagree."""
+    drv = Driver("C17")
+    pend = []   # (op, label, expected bool, reply index)
+    eps = q(CERT_EPS)
+    gates = {}
+    nneg = {"psd": 0, "unitary": 0, "trace1": 0, "povmsum": 0, "tp": 0}
+
+    def ask_psd(label, M, expect):
+        M = _herm(M)
+        n = M.shape[0]
+        w, V = np.linalg.eigh(M)
+        pend.append(("psdcert", label, expect, drv.ask("psdcert", n, _pc(M), _pc(V), qlist(w), eps)))
+
+    for item in cert_items(ctx):
+        kind, label = item[0], item[1]
+        ctx.count(f"cert {kind} {label.split('/')[0]}/{label.split('/')[1]}")
+        ctx.case(("cert", kind, label), nontrivial=True, sample={"op": kind, "entry": label})
+        if kind == "psd":
+            M = np.asarray(item[2], dtype=np.complex128)
+            dev = float(np.abs(M - M.conj().T).max(initial=0))
+            if dev > 1e-12:
+                ctx.disagree("psdcert", label, "implementation matrix Hermitian", f"hermitian defect {dev:.3g}")
+            ask_psd(label, M, True)
+            if nneg["psd"] < 12:
+                nneg["psd"] += 1
+                w, V = np.linalg.eigh(_herm(M))
+                v = V[:, [0]]
+                ask_psd(label + "/neg-control", _herm(M) - 0.01 * (v @ v.conj().T), False)
+        elif kind == "unitary":
+            U = np.asarray(item[2], dtype=np.complex128)
+            pend.append(("unitarycert", label, True, drv.ask("unitarycert", U.shape[0], _pc(U), eps)))
+            gates.setdefault(label, {})["u"] = U
+            if nneg["unitary"] < 6:
+                nneg["unitary"] += 1
+                pend.append(("unitarycert", label + "/neg-control", False,
+                             drv.ask("unitarycert", U.shape[0], _pc(U * (1 + 1e-6)), eps)))
+        elif kind == "trace1":
+            M = np.asarray(item[2], dtype=np.complex128)
+            pend.append(("trace1", label, True, drv.ask("trace1", M.shape[0], _pc(M), eps)))
+            if nneg["trace1"] < 6:
+                nneg["trace1"] += 1
+                pend.append(("trace1", label + "/neg-control", False,
+                             drv.ask("trace1", M.shape[0], _pc(M * (1 + 1e-6)), eps)))
+        elif kind == "povmsum":
+            Ms = [np.asarray(m, dtype=np.complex128) for m in item[2]]
+            n = Ms[0].shape[0]
+            pend.append(("povmsum", label, True, drv.ask("povmsum", n, _pc(np.array(Ms)), eps)))
+            if nneg["povmsum"] < 6 and len(Ms) > 1:
+                nneg["povmsum"] += 1
+                pend.append(("povmsum", label + "/neg-control", False,
+                             drv.ask("povmsum", n, _pc(np.array(Ms[:-1] + [Ms[-1] * (1 - 1e-6)])), eps)))
+        elif kind == "tp":
+            hs = np.asarray(item[2], dtype=np.float64)
+            pend.append(("tpcert", label, True, drv.ask("tpcert", hs.shape[0], _pr(hs), eps)))
+            gates.setdefault(label, {})["hs"] = hs
+            if nneg["tp"] < 6:
+                nneg["tp"] += 1
+                bad = hs.copy(); bad[0, -1] += 1e-6
+                pend.append(("tpcert", label + "/neg-control", False, drv.ask("tpcert", hs.shape[0], _pr(bad), eps)))
+    # unitary <-> HS matrix of the generated gate through the model's hsOfUnitary (small systems only)
+    k = 0
+    for label, gd in sorted(gates.items()):
+        if "u" in gd and "hs" in gd and label.startswith("gate/") and gd["u"].shape[0] <= 4:
+            system = label.split("/")[1]
+            B = [np.asarray(b, dtype=np.complex128) for b in ref_basis(system)]
+            d = gd["u"].shape[0]
+            bs = qlist(x for b in B for z in b.flatten() for x in (z.real, z.imag))
+            pend.append(("hsunitary", label, True, drv.ask("hsunitary", d, bs, _pc(gd["u"]), _pr(gd["hs"]), eps)))
+            ctx.count(f"cert hsunitary {system}")
+            if k < 4:
+                k += 1
+                pend.append(("hsunitary", label + "/neg-control", False,
+                             drv.ask("hsunitary", d, bs, _pc(gd["u"]), _pr(gd["hs"].T + 1e-6 * np.eye(d * d)[::-1]), eps)))
+    out = drv.run(timeout=1500)
+    for op, label, expect, i in pend:
+        ctx.corr_ops.add(op)
+        t = out[i].split()
+        if t[0] != "ok" or (t[1] == "true") != expect:
+            ctx.disagree(op, label, f"implementation: physical/consistent={expect}", out[i][:200])
 
 
 def search(ctx):
